@@ -257,7 +257,7 @@ def run(c):
             for k in range(1, calls[0] + 1):
                 nid += 1
                 hold_batch.append(dict(s, id="h%d" % nid, dies=[], hold=k))
-    hlimit = 1200 if q else 12000
+    hlimit = 1200 if q else 4000
     if len(hold_batch) > hlimit:
         c.rng.shuffle(hold_batch)
         hold_batch = hold_batch[:hlimit]
